@@ -1096,7 +1096,7 @@ def transact_rules(chk, pid):
         late = [r for r in S.raises if r.seq > first_effect and r.chain == (S.fn.qual,)]
         chk.ob("C02.R1", not late, CORE, host, "no-partial-trade-on-error", "a refused trade changes nothing: every error is raised before the position, the flags or the parent's cash are touched",
                where=late[0].where if late else fi.where, expected="raise before the first write", found="%d raise sites after the position changed" % len(late))
-    if pid == "C10":
+    if pid in ("C10", "C02"):
         raises = [e for e in S.raises if has_lit(e.guard, ("isnone", price), False) and has_lit(e.guard, fld(SELF, "_bidoffer_set"), False)]
         ok = bool(raises) and all(any(r.seq < w.seq for r in raises) for w in pw)
         chk.ob("C10.R1", ok, CORE, host, "guard:custom-price-without-bidoffer", "a custom-price trade without bid/offer data must raise before the position changes", where=fi.where)
@@ -1996,7 +1996,7 @@ def ref(self, universe, **kwargs):
 def security_setup_rules(chk, pid):
     from .algo_equiv import check_equiv
 
-    if pid in ("C01", "C04", "C19"):
+    if pid in ("C01", "C04", "C19", "C07"):
         check_equiv(chk, "C01.R8", CORE, "SecurityBase", "setup", SEC_SETUP_REF, "security-setup",
                     "a security binds its own column of the universe as its price series (or an own empty column when the universe has none), its own history columns, and - when bid/offer "
                     "data is supplied - its own column of it, index-checked", limit=14)
